@@ -697,9 +697,113 @@ iteritems = Contract('OrderedMultiDict.iteritems', setup=setup_iter, requires=pu
 iterkeys = Contract('OrderedMultiDict.iterkeys', setup=setup_iter, requires=pub_req, ensures=iter_ensures_for(False),
                     modifies=lambda c: [], loops={0: Loop(iter_inv_for(False), heap=[], ghost=['outcell'])},
                     local_types=dict(), generator=True, hints=iter_hint, variants=['multi'])
+
+
+# ---- iterkeys(multi=False): each key once, at the position of its first pair ------------------------------------------------------
+# Ghost: outcell[j] = the cell whose key was the j-th yielded item, outidx = its inverse on first cells.
+# "first cell of a key" = ghost position 0 in the key's cell list (M1/M2/M4: the cell of the key with the smallest stamp).
+YSet = HeapClass('OYieldedSet', 'set', k=VAL)
+ALL.append(YSet)
+
+
+def setup_iter_single(eng, st, variant=None):
+    d = setup_iter(eng, st, variant)
+    d['multi'] = SBool(False)
+    st.ghost['outidx'] = z3.Const('outidx_init', IntArr)
+    return d
+
+
+def iter_hint_single(c, event, data):
+    if event != 'yield':
+        return []
+    return [('ghost', 'outidx', z3.Store(c.g('outidx'), c.L('curr'), c.g('out_n'))),
+            ('ghost', 'outcell', z3.Store(c.g('outcell'), c.g('out_n'), c.L('curr')))]
+
+
+def single_facts(c, v, horizon):
+    """what has been yielded, given that exactly the cells with stamp < horizon have been walked"""
+    n, oc, oi = c.g('out_n'), c.g('outcell'), c.g('outidx')
+    j, j2, r = z3.Ints('j j2 r')
+    ocj = z3.Select(oc, j)
+    return [
+        ('every yielded item is the key of a first cell already walked', z3.ForAll([j], z3.Implies(z3.And(0 <= j, j < n), z3.And(
+            z3.Select(v.live, ocj), z3.Select(v.pos, ocj) == 0, z3.Select(c.g('out_0'), j) == z3.Select(v.key, ocj),
+            z3.Select(v.t, ocj) < horizon, z3.Select(oi, ocj) == j)))),
+        ('items come out in insertion (stamp) order of the first pairs', z3.And(n >= 0, z3.ForAll([j, j2], z3.Implies(
+            z3.And(0 <= j, j < j2, j2 < n), z3.Select(v.t, ocj) < z3.Select(v.t, z3.Select(oc, j2)))))),
+        ('every first cell already walked has been yielded', z3.ForAll([r], z3.Implies(
+            z3.And(z3.Select(v.live, r), z3.Select(v.pos, r) == 0, z3.Select(v.t, r) < horizon),
+            z3.And(0 <= z3.Select(oi, r), z3.Select(oi, r) < n, z3.Select(oc, z3.Select(oi, r)) == r)))),
+    ]
+
+
+def iter_inv_single(c):
+    o, v = V(c, c.old), V(c)
+    curr = c.Lsv('curr')
+    ys = c.Lsv('yielded')
+    k = z3.Const('k', Val)
+    horizon = z3.If(curr.t == v.root, v.clock, z3.Select(v.t, curr.t))
+    ydom = z3.Select(c.arr(YSet, 'dom'), ys.t)
+    return [('nothing is modified', z3.And(same(c, LL_KEYS + D_KEYS), v.live == o.live, v.t == o.t, v.pos == o.pos)),
+            ('root local; curr is a node of the ring', z3.And(c.Lsv('root').t == v.root, v.node(curr.t))),
+            ('the local set is the one allocated by this call', z3.And(ys.t >= z3.Int('alloc0'), ys.t == c.x['loop_entry'].locals['yielded'].t)),
+            ('yielded = the keys whose first cell has been walked', z3.ForAll([k], z3.Select(ydom, k) == z3.And(
+                z3.Select(v.mdom, k), z3.Select(v.t, v.cell(k, 0)) < horizon))),
+            ] + [('ll.' + l, f) for l, f in ll_wf(v)] + single_facts(c, v, horizon)
+
+
+def iter_ensures_single(c):
+    o, v = V(c, c.old), V(c)
+    return [('nothing is modified', z3.And(same(c, LL_KEYS + D_KEYS), v.live == o.live, v.t == o.t, v.pos == o.pos))] + \
+        single_facts(c, v, v.clock)
+
+
+def _by_variant(single, multi):
+    return lambda c, *a: (single if c.eng.variant == 'single' else multi)(c, *a)
+
+
+iterkeys.setup = lambda eng, st, variant=None: (setup_iter_single if variant == 'single' else setup_iter)(eng, st, variant)
+iterkeys.ensures = _by_variant(iter_ensures_single, iter_ensures_for(False))
+iterkeys.hints = _by_variant(iter_hint_single, iter_hint)
+iterkeys.loops = {0: Loop(iter_inv_for(False), heap=[], ghost=['outcell']),
+                  1: Loop(iter_inv_single, heap=[('OYieldedSet', 'dom'), ('OYieldedSet', 'size')], ghost=['outcell', 'outidx'])}
+iterkeys.variants = ['multi', 'single']
+
+
+def m4_all_pairs(c):
+    """M4 for ALL index pairs (not only neighbours): follows from M4 by induction on the distance; the base and the step of that
+    induction are discharged as two standalone lemma obligations (deductive/C01.py), the induction principle is the trusted step"""
+    v = V(c)
+    k = z3.Const('k', Val)
+    i, j = z3.Ints('i j')
+    return [('M4+ stamps increase along a cell list (all pairs)', z3.ForAll([k, i, j], z3.Implies(
+        z3.And(z3.Select(v.mdom, k), 0 <= i, i < j, j < v.clen(k)),
+        z3.Select(v.t, v.cell(k, i)) < z3.Select(v.t, v.cell(k, j)))))]
+
+
+def m4_induction_lemmas():
+    """[(name, closed formula)]: base and step of  (forall i. f(i) < f(i+1))  =>  (forall i < j. f(i) < f(j))  on [0, n)"""
+    f = z3.Function('f_m4', z3.IntSort(), z3.IntSort())
+    n, i, i0, j0 = z3.Ints('n_m4 i_m4 i0_m4 j0_m4')
+    mono = z3.ForAll([i], z3.Implies(z3.And(0 <= i, i + 1 < n), f(i) < f(i + 1)))
+    base = z3.Implies(z3.And(mono, 0 <= i0, i0 + 1 < n), f(i0) < f(i0 + 1))
+    step = z3.Implies(z3.And(mono, 0 <= i0, i0 < j0, j0 + 1 < n, f(i0) < f(j0)), f(i0) < f(j0 + 1))
+    return [('M4+ induction base (distance 1)', base), ('M4+ induction step (distance d -> d+1)', step)]
+
+
+iterkeys.facts = lambda c: m4_all_pairs(c) if c.eng.variant == 'single' else []
+_ring = ['fact:M4+ stamps increase along a cell list (all pairs)', 'll.O0', 'll.O1', 'll.O2', 'll.O3', 'll.O4', 'll.O5', 'll.O6', 'll.M1', 'll.M2', 'll.M3', 'll.M4',
+         'nothing is modified', 'root local; curr is a node of the ring', 'the local set is the one allocated by this call']
+iterkeys.reveal = {
+    'preserves: yielded = the keys whose first cell has been walked': _ring + ['yielded = the keys whose first cell has been walked'],
+    'preserves: every yielded item is the key of a first cell already walked':
+        _ring + ['every yielded item is the key of a first cell already walked', 'yielded = the keys whose first cell has been walked'],
+}
+iterkeys.local_types = dict(yielded=REF(YSet))
+iterkeys.modifies = lambda c: [('OYieldedSet', 'dom'), ('OYieldedSet', 'size')]
 for _c in [iteritems, iterkeys]:
     CONTRACTS[_c.qualname] = _c
-PUBLIC += [('OrderedMultiDict.iteritems', ['multi']), ('OrderedMultiDict.iterkeys', ['multi'])]
+PUBLIC += [('OrderedMultiDict.iteritems', ['multi']), ('OrderedMultiDict.iterkeys', ['multi', 'single'])]
 
 
 # =====================================================================================================================
